@@ -143,7 +143,7 @@ def main(argv=None):
         cov['transitions'] = rep.transitions
         cov['traces_validated_against_impl'] = rep.traces
     for k, v in extra.items():
-        if k not in ('exhaustive', 'bounds'):
+        if k not in ('exhaustive', 'bounds', 'floors'):
             cov[k] = v
     ev = {
         'property_id': pid, 'tier': args.tier, 'seed': seed, 'level': level, 'coverage': cov,
